@@ -48,6 +48,43 @@ theorem wp_foldProg {α β : Type} {C : Prop} (f : β → α → Prog β) (I : L
     intro b' w' h'
     exact wp_foldProg f I rest b' w' h' step
 
+/-! ## solver 0 exists and its clause variables are counted by `n_vars` -/
+
+/-- the shared solver exists and the world is bounded: then every variable of the database of
+solver 0 is at most its `n_vars`, so that a freshly allocated variable occurs nowhere -/
+def W0 (w : World) : Prop := 0 < w.solvers.length ∧ w.Bounded
+
+theorem W0.db_le {w : World} (h : W0 w) : ∀ c ∈ w.db 0, ∀ l ∈ c, l.var ≤ w.nVarsOf 0 := h.2 0 h.1
+
+theorem W0.occurs_le {w : World} (h : W0 w) {v : Nat} (ho : Occurs (w.db 0) v) : v ≤ w.nVarsOf 0 := by
+  obtain ⟨c, hc, l, hl, rfl⟩ := ho
+  exact h.db_le c hc l hl
+
+theorem W0_onClause {w : World} (h : W0 w) (s : Nat) (c : Clause) : W0 (w.onClause s c) :=
+  ⟨by simpa [World.onClause, World.upd] using h.1, Bounded_onClause h.2 s c⟩
+theorem W0_onNVars {w : World} (h : W0 w) (s : Nat) : W0 (w.onNVars s) := ⟨h.1, Bounded_onNVars h.2 s⟩
+theorem W0_onSolve {w : World} (h : W0 w) (s : Nat) (a : List Lit) (r : Reply) : W0 ((w.onSolve s a).onReply s r) :=
+  ⟨by simpa [World.onSolve, World.onReply, World.upd] using h.1, Bounded_onReply (Bounded_onSolve h.2 s a) s r⟩
+
+/-- `W0` is an invariant of every program: it can be added to any postcondition -/
+theorem wp_W0 {α : Type} {C : Prop} (p : Prog α) : ∀ (w : World) (Q : α → World → Prop),
+    W0 w → wp C p w Q → wp C p w (fun a w' => W0 w' ∧ Q a w') := by
+  induction p with
+  | pure a0 => intro w Q hb h; exact ⟨hb, h⟩
+  | crash m => intro w Q _ h; exact h
+  | newSolver k ih =>
+    intro w Q hb h
+    exact ih _ _ Q ⟨by simp [World.onNew], Bounded_onNew hb.2⟩ h
+  | reserve s n k ih =>
+    intro w Q hb h
+    exact ih _ Q ⟨by simpa [World.onReserve, World.upd] using hb.1, Bounded_onReserve hb.2 s n⟩ h
+  | clause s c k ih => intro w Q hb h; exact ih _ Q (W0_onClause hb s c) h
+  | nVars s k ih => intro w Q hb h; exact ih _ _ Q (W0_onNVars hb s) h
+  | solve s as k ih =>
+    intro w Q hb h
+    exact ⟨fun m hm => ih _ _ Q (W0_onSolve hb s as _) (h.1 m hm),
+           fun hu => ih _ _ Q (W0_onSolve hb s as _) (h.2 hu)⟩
+
 /-! ## accessors after table updates -/
 
 theorem ty_allocVar (e : Enc) (t : VarType) (nv v : Nat) :
@@ -283,16 +320,14 @@ theorem inv_retireSel {st : Store} {e : Enc} {Γ : Cnf} {T F : Nat → Bool} {di
   · exact nodup_swapRemoveL h.asm_nodup hp
   · intro v hv
     obtain ⟨h1, h2⟩ := h.ghostT v hv
-    refine ⟨by rw [hty]; split <;> simp [h1], by simpa [retireSel] using h2⟩
+    refine ⟨by rw [hty]; split <;> simp [h1], h2.mono (fun c hc => List.mem_cons_of_mem _ hc)⟩
   · intro v hv
     simp only [Bool.or_eq_true, beq_iff_eq] at hv
     rcases hv with hv | hv
     · obtain ⟨h1, h2⟩ := h.ghostF v hv
-      exact ⟨by rw [hty]; split <;> simp [h1], by simpa [retireSel] using h2⟩
+      exact ⟨by rw [hty]; split <;> simp [h1], h2.mono (fun c hc => List.mem_cons_of_mem _ hc)⟩
     · subst hv
-      refine ⟨by rw [hty, if_pos rfl], ?_⟩
-      have : v < e.vars.length := ty_lt_of_ne (by rw [htys]; simp)
-      simpa [retireSel] using this
+      exact ⟨by rw [hty, if_pos rfl], [nl v], by simp, nl v, by simp, rfl⟩
   · intro v ⟨hT, hF⟩
     simp only [Bool.or_eq_true, beq_iff_eq] at hF
     rcases hF with hF | hF
@@ -321,6 +356,11 @@ theorem inv_retireSel {st : Store} {e : Enc} {Γ : Cnf} {T F : Nat → Bool} {di
     have hji : j ≠ i := fun e' => hd (Or.inr e')
     obtain ⟨s', cl, h1, h2, h3⟩ := h.act j hj (fun hd' => hd (Or.inl hd'))
     exact ⟨s', cl, by rw [hsv, if_neg hji]; exact h1, (hcur j s' cl).2 h2, fun c hc => List.mem_cons_of_mem _ (h3 c hc)⟩
+  · intro v j hv
+    rw [hty] at hv
+    by_cases hvs : v + 1 = s
+    · rw [if_pos hvs] at hv; cases hv
+    · rw [if_neg hvs] at hv; exact List.mem_cons_of_mem _ (h.disj_cl v j hv)
 
 theorem optAll_map_of_forall {α β : Type} (f : α → Option β) (g : α → β) :
     ∀ (l : List α), (∀ b ∈ l, f b = some (g b)) → optAll (l.map f) = some (l.map g)
@@ -367,7 +407,7 @@ theorem curClauses_exists {st : Store} {e : Enc} {Γ : Cnf} {T F : Nat → Bool}
 
 theorem inv_withSel {st : Store} {e : Enc} {Γ : Cnf} {T F : Nat → Bool} {dirty : Nat → Prop}
     (hinv : st.Inv) (h : EncInv st e Γ T F dirty) {i : Nat} (hi : st.hasId i = true) (hs : e.sv i = none)
-    (nv : Nat) :
+    (nv : Nat) (hnv : ∀ c ∈ Γ, ∀ l ∈ c, l.var ≤ nv) :
     let k := (allocVar e (.sel i) nv).1
     let cl := attackClauses e.sem k (e.xv i) ((attackersOf st i).map e.xv)
     EncInv st (withSel e i nv) (cl.reverse ++ Γ) T F (fun j => dirty j ∧ j ≠ i) := by
@@ -375,6 +415,10 @@ theorem inv_withSel {st : Store} {e : Enc} {Γ : Cnf} {T F : Nat → Bool} {dirt
   have hk : k = max e.vars.length (nv + 1) := (allocVar_fst e (.sel i) nv).1
   have hklen : (withSel e i nv).vars.length = k + 1 := (allocVar_fst e (.sel i) nv).2
   have htyk : e.ty k = .ignored := ty_fresh e k (by omega)
+  have hocc : ∀ v, Occurs Γ v → v ≠ k := by
+    rintro v ⟨c, hc, l, hl, rfl⟩
+    have := hnv c hc l hl
+    omega
   have hil : i < e.selVar.length := by
     rw [h.sz_s]; obtain ⟨l, hl⟩ := Store.hasId_iff.1 hi; exact Store.live_lt hl
   have hty : ∀ v, (withSel e i nv).ty v = if v = k then .sel i else e.ty v := ty_allocVar e (.sel i) nv
@@ -457,10 +501,10 @@ theorem inv_withSel {st : Store} {e : Enc} {Γ : Cnf} {T F : Nat → Bool} {dirt
     rw [htyk] at ht; cases ht
   · intro v hv
     obtain ⟨h1, h2⟩ := h.ghostT v hv
-    refine ⟨by rw [hty, if_neg (by omega)]; exact h1, by rw [hklen]; omega⟩
+    exact ⟨by rw [hty, if_neg (hocc v h2)]; exact h1, h2.mono (fun c hc => List.mem_append_right _ hc)⟩
   · intro v hv
     obtain ⟨h1, h2⟩ := h.ghostF v hv
-    refine ⟨by rw [hty, if_neg (by omega)]; exact h1, by rw [hklen]; omega⟩
+    exact ⟨by rw [hty, if_neg (hocc v h2)]; exact h1, h2.mono (fun c hc => List.mem_append_right _ hc)⟩
   · exact h.ghostTF
   · intro c hc
     rcases List.mem_append.1 hc with hc | hc
@@ -483,6 +527,11 @@ theorem inv_withSel {st : Store} {e : Enc} {Γ : Cnf} {T F : Nat → Bool} {dirt
     · obtain ⟨s', cl', h1, h2, h3⟩ := h.act j hj (fun hd' => hd ⟨hd', hji⟩)
       exact ⟨s', cl', by rw [hsv, if_neg hji]; exact h1, (hcurc j s' cl').2 h2,
         fun c hc => List.mem_append_right _ (h3 c hc)⟩
+  · intro v j hv
+    rw [hty] at hv
+    by_cases hvk : v + 1 = k
+    · rw [if_pos hvk] at hv; cases hv
+    · rw [if_neg hvk] at hv; exact List.mem_append_right _ (h.disj_cl v j hv)
 
 theorem EncInv.weaken {st : Store} {e : Enc} {Γ : Cnf} {T F : Nat → Bool} {d d' : Nat → Prop}
     (h : EncInv st e Γ T F d) (hd : ∀ j, d j → d' j) : EncInv st e Γ T F d' := by
@@ -531,6 +580,7 @@ theorem inv_store_change {st st' : Store} {e : Enc} {Γ : Cnf} {T F : Nat → Bo
     rw [hid] at hj
     obtain ⟨s, cl, h1, h2, h3⟩ := h.act j hj (fun hdj => hn (hd j hdj))
     exact ⟨s, cl, h1, (CurClauses_store (hatt j hn) s cl).2 h2, h3⟩
+  · exact h.disj_cl
 
 theorem CurClauses_transfer {st st' : Store} {e e' : Enc} {j : Nat}
     (hatt : attackersOf st' j = attackersOf st j) (hsem : e'.sem = e.sem) (hj : e'.av j = e.av j)
@@ -543,7 +593,7 @@ theorem CurClauses_transfer {st st' : Store} {e e' : Enc} {j : Nat}
 tables relate to those of `e` as `alloc_arg` makes them -/
 theorem inv_newArg_core {st : Store} {e e1 : Enc} {Γ Γ' : Cnf} {T F : Nat → Bool} {d : Nat → Prop}
     (hinv : st.Inv) (h : EncInv st e Γ T F d) {l v : Nat} (hfresh : ∀ i, ¬ st.Live i l)
-    (hv : e.vars.length ≤ v) (hsem : e1.sem = e.sem)
+    (hv : e.vars.length ≤ v) (hnv : ∀ c ∈ Γ, ∀ l ∈ c, l.var < v) (hsem : e1.sem = e.sem)
     (hty : ∀ x, e1.ty x = if x = v then .arg st.labels.length
       else if e.sem ≠ .ST ∧ x = v + 1 then .disj st.labels.length else e.ty x)
     (hav : ∀ j, e1.av j = if j = st.labels.length then some v else e.av j)
@@ -562,8 +612,10 @@ theorem inv_newArg_core {st : Store} {e e1 : Enc} {Γ Γ' : Cnf} {T F : Nat → 
     intro x t hx hne
     have hxl : x < e.vars.length := ty_lt_of_ne (by rw [hx]; exact hne)
     rw [hty, if_neg (by omega), if_neg (by omega)]; exact hx
-  have hkeepI : ∀ x, x < e.vars.length → e1.ty x = e.ty x := by
-    intro x hx; rw [hty, if_neg (by omega), if_neg (by omega)]
+  have hkeepI : ∀ x, Occurs Γ x → e1.ty x = e.ty x := by
+    rintro x ⟨c, hc, l', hl', rfl⟩
+    have := hnv c hc l' hl'
+    rw [hty, if_neg (by omega), if_neg (by omega)]
   have hold : ∀ x t, e1.ty x = t → x ≠ v → ¬ (e.sem ≠ .ST ∧ x = v + 1) → e.ty x = t := by
     intro x t hx h1 h2; rw [hty, if_neg h1, if_neg h2] at hx; exact hx
   have havold : ∀ j, st.hasId j = true → e1.av j = e.av j := by
@@ -655,10 +707,10 @@ theorem inv_newArg_core {st : Store} {e e1 : Enc} {Γ Γ' : Cnf} {T F : Nat → 
   · rw [hasm]; exact h.asm_nodup
   · intro x hx
     obtain ⟨h1, h2⟩ := h.ghostT x hx
-    exact ⟨by rw [hkeepI x h2]; exact h1, by omega⟩
+    exact ⟨by rw [hkeepI x h2]; exact h1, h2.mono hΓ1⟩
   · intro x hx
     obtain ⟨h1, h2⟩ := h.ghostF x hx
-    exact ⟨by rw [hkeepI x h2]; exact h1, by omega⟩
+    exact ⟨by rw [hkeepI x h2]; exact h1, h2.mono hΓ1⟩
   · exact h.ghostTF
   · intro c hc
     rcases hΓ3 c hc with hc | ⟨hs, rfl⟩
@@ -675,6 +727,18 @@ theorem inv_newArg_core {st : Store} {e e1 : Enc} {Γ Γ' : Cnf} {T F : Nat → 
     · obtain ⟨s, cl, h1, h2, h3⟩ := h.act j hj' (fun hdj => hn (Or.inl hdj))
       exact ⟨s, cl, by rw [hsv]; exact h1, (hcur j hj' s cl).2 h2, fun c hc => hΓ1 c (h3 c hc)⟩
     · exact absurd (Or.inr hj') hn
+  · intro x j hx
+    rw [hty] at hx
+    by_cases h1 : x + 1 = v
+    · rw [if_pos h1] at hx; cases hx
+    · rw [if_neg h1] at hx
+      by_cases h2 : e.sem ≠ .ST ∧ x + 1 = v + 1
+      · obtain ⟨h2a, h2b⟩ := h2
+        have : x = v := by omega
+        subst this
+        exact hΓ2 h2a
+      · rw [if_neg h2] at hx
+        exact hΓ1 _ (h.disj_cl x j hx)
 
 /-- only the dirtiness of live arguments matters -/
 theorem EncInv.restrict {st : Store} {e : Enc} {Γ : Cnf} {T F : Nat → Bool} {d d' : Nat → Prop}
@@ -720,7 +784,8 @@ theorem wp_dropSel {C : Prop} {sem : DSem} {st : Store} {dirty : Nat → Prop} {
     exact this
 
 theorem wp_updateAttacksTo {C : Prop} {sem : DSem} {st : Store} {dirty : Nat → Prop} {e : Enc} {w : World}
-    (hinv : st.Inv) (h : EInv sem st dirty e w) (hen : e.enabled = true) {to : Nat} (hi : st.hasId to = true) :
+    (hinv : st.Inv) (h : EInv sem st dirty e w) (hw : W0 w) (hen : e.enabled = true) {to : Nat}
+    (hi : st.hasId to = true) :
     wp C (updateAttacksTo st e to) w (fun e' w' => EInv sem st (fun j => dirty j ∧ j ≠ to) e' w' ∧
       e'.enabled = true) := by
   have hlt : to < e.selVar.length := by
@@ -728,11 +793,12 @@ theorem wp_updateAttacksTo {C : Prop} {sem : DSem} {st : Store} {dirty : Nat →
     rw [hI.sz_s]; obtain ⟨l, hl⟩ := Store.hasId_iff.1 hi; exact Store.live_lt hl
   unfold updateAttacksTo
   rw [if_neg (by simp [hen]), if_neg (by omega), wp_bind]
-  refine wp_mono _ _ _ _ ?_ (wp_dropSel h to)
-  rintro e1 w1 ⟨⟨hsem, T, F, hI⟩, hsv, hen1, _⟩
+  refine wp_mono _ _ _ _ ?_ (wp_W0 _ _ _ hw (wp_dropSel h to))
+  rintro e1 w1 ⟨hw1, ⟨hsem, T, F, hI⟩, hsv, hen1, _⟩
   rw [wp_bind, wp_newSolverVar]
-  generalize hnv : w1.nVarsOf 0 = nv
-  have hI2 := inv_withSel hinv hI hi hsv nv
+  have hle := hw1.db_le
+  generalize hnv : w1.nVarsOf 0 = nv at hle
+  have hI2 := inv_withSel hinv hI hi hsv nv hle
   simp only at hI2
   obtain ⟨hxi, hxs⟩ := curClauses_exists hinv hI hi
   unfold emitAttackClauses
@@ -854,14 +920,12 @@ theorem inv_forgotten {st : Store} {e : Enc} {Γ : Cnf} {T F : Nat → Bool} {d 
     simp only [Bool.or_eq_true, beq_iff_eq] at hx
     rcases hx with hx | hx
     · obtain ⟨h1, h2⟩ := h.ghostT x hx
-      exact ⟨by rw [hty]; split <;> simp [h1], by simpa [forgotten] using h2⟩
+      exact ⟨by rw [hty]; split <;> simp [h1], h2.mono (fun c hc => List.mem_cons_of_mem _ hc)⟩
     · subst hx
-      refine ⟨by rw [hty, if_pos rfl], ?_⟩
-      have : x < e.vars.length := ty_lt_of_ne (by rw [htyv]; simp)
-      simpa [forgotten] using this
+      exact ⟨by rw [hty, if_pos rfl], [pl x], by simp, pl x, by simp, rfl⟩
   · intro x hx
     obtain ⟨h1, h2⟩ := h.ghostF x hx
-    exact ⟨by rw [hty]; split <;> simp [h1], by simpa [forgotten] using h2⟩
+    exact ⟨by rw [hty]; split <;> simp [h1], h2.mono (fun c hc => List.mem_cons_of_mem _ hc)⟩
   · intro x ⟨hT, hF⟩
     simp only [Bool.or_eq_true, beq_iff_eq] at hT
     rcases hT with hT | hT
@@ -885,20 +949,30 @@ theorem inv_forgotten {st : Store} {e : Enc} {Γ : Cnf} {T F : Nat → Bool} {d 
     obtain ⟨s, cl, h1, h2, h3⟩ := h.act j hj1 (fun hdj => hn (Or.inl hdj))
     exact ⟨s, cl, h1, (hcur j hj1 hj2 (fun ha => hn (Or.inr ha)) s cl).2 h2,
       fun c hc => List.mem_cons_of_mem _ (h3 c hc)⟩
+  · intro x j hx
+    rw [hty] at hx
+    by_cases hxv : x + 1 = v
+    · rw [if_pos hxv] at hx; cases hx
+    · rw [if_neg hxv] at hx; exact List.mem_cons_of_mem _ (h.disj_cl x j hx)
 
 theorem updateAttacksTo_disabled (st : Store) (e : Enc) (to : Nat) (h : e.enabled = false) :
     updateAttacksTo st e to = .pure e := by
   unfold updateAttacksTo; simp [h]
 
 theorem wp_allocArg {C : Prop} {sem : DSem} {st : Store} {d : Nat → Prop} {e : Enc} {w : World}
-    (hinv : st.Inv) (h : EInv sem st d e w) {l : Nat} (hfresh : ∀ i, ¬ st.Live i l) :
+    (hinv : st.Inv) (h : EInv sem st d e w) (hw : W0 w) {l : Nat} (hfresh : ∀ i, ¬ st.Live i l) :
     wp C (allocArg e st.labels.length) w (fun e1 w1 =>
       EInv sem (st.pushArg l) (fun j => d j ∨ j = st.labels.length) e1 w1 ∧ e1.enabled = e.enabled) := by
   obtain ⟨hsem, T, F, hI⟩ := h
   unfold allocArg
   rw [wp_bind, wp_newSolverVar]
-  generalize hnv : w.nVarsOf 0 = nv
+  have hle := hw.db_le
+  generalize hnv : w.nVarsOf 0 = nv at hle
   have hr1 := allocVar_fst e (.arg st.labels.length) nv
+  have hlt : ∀ c ∈ w.db 0, ∀ l ∈ c, l.var < (allocVar e (.arg st.labels.length) nv).1 := by
+    intro c hc l' hl'
+    have := hle c hc l' hl'
+    omega
   have hav : ∀ (e1 : Enc) (v : Nat), e1.argVar = e.argVar ++ [some v] →
       ∀ j, e1.av j = if j = st.labels.length then some v else e.av j := by
     intro e1 v he j
@@ -914,7 +988,7 @@ theorem wp_allocArg {C : Prop} {sem : DSem} {st : Store} {d : Nat → Prop} {e :
     simp only
     refine ⟨⟨by show e.sem = sem; exact hsem, T, F, ?_⟩, rfl⟩
     rw [db_onNVars]
-    refine inv_newArg_core hinv hI hfresh (v := (allocVar e (.arg st.labels.length) nv).1) (by omega) rfl ?_
+    refine inv_newArg_core hinv hI hfresh (v := (allocVar e (.arg st.labels.length) nv).1) (by omega) hlt rfl ?_
       (hav _ _ rfl) (hsv _ rfl) rfl (by simp) (by simp) ?_ (fun c hc => hc) (fun hn => absurd hs hn)
       (fun c hc => Or.inl hc)
     · intro x
@@ -934,7 +1008,7 @@ theorem wp_allocArg {C : Prop} {sem : DSem} {st : Store} {d : Nat → Prop} {e :
           (allocVar e (.arg st.labels.length) nv).1 + 1 := by omega
       refine ⟨⟨by show e.sem = sem; exact hsem, T, F, ?_⟩, rfl⟩
       rw [db_onClause_same, db_onNVars, db_onNVars, hv2]
-      refine inv_newArg_core hinv hI hfresh (v := (allocVar e (.arg st.labels.length) nv).1) (by omega) rfl ?_
+      refine inv_newArg_core hinv hI hfresh (v := (allocVar e (.arg st.labels.length) nv).1) (by omega) hlt rfl ?_
         (hav _ _ rfl) (hsv _ rfl) rfl (by simp) (by simp) ?_ (fun c hc => List.mem_cons_of_mem _ hc)
         (fun _ => List.mem_cons_self) ?_
       · intro x
